@@ -120,7 +120,29 @@ def oracle_file(case):
     names = case.get("names") or ["VALA", "API", "uwi", "Api", "UWI", "APIN", "UWID", "XAPI", "api2", "Uwi_2", "MUWI", "A", "PI", "W", "uw", "IU", "I"]
     v12 = case.get("v12", False)
     it = lambda m: lastext.item(m, "", s, "descr")
-    vsec = [lastext.item("VERS", "", case.get("vers") or ("1.2" if v12 else "2.0"), "v"), lastext.item("WRAP", "", "NO", "w"), it("XV")]
+    if case.get("param_only"):
+        # a clock time: the colon is a separator everywhere except in ~Parameter, where the value stays the text it is
+        pitems = [lastext.item(m, "", s, "descr", ) for m in ("TIML", "TLAB")]
+        for ln in pitems:
+            ln["p"] = ["", "", " ", " ", " ", ""]
+        spec = {"nl": "\n", "final_nl": True, "sections": [
+            lastext.section("V", "~Version", [lastext.item("VERS", "", "2.0", "v"), lastext.item("WRAP", "", "NO", "w")]),
+            lastext.section("W", "~Well", [lastext.item("STRT", "M", "1", ""), lastext.item("STOP", "M", "2", ""), lastext.item("STEP", "M", "1", ""), lastext.item("NULL", "", "-999.25", "")]),
+            lastext.section("C", "~Curves", [lastext.item("DEPT", "M", "", "d")]),
+            lastext.section("P", "~Parameter", pitems),
+            lastext.section("A", "~A", [lastext.row(["1"])], ncols=1)]}
+        las = read_spec(spec, mnemonic_case="upper")
+        out.cls("file", "clock-time-in-Parameter")
+        out.nontrivial = True
+        out.sample = dict(s=s)
+        if is_raised(las):
+            out.fail("file-read-raises|" + las.bucket, "%s\n%s" % (las, spec_summary(spec)))
+            return out
+        for item in las.params:
+            if not (isinstance(item.value, str) and item.value == s):
+                out.fail("text-converted|clock-time|Parameter", "~Parameter value %r must stay text, got %r (%s)" % (s, item.value, type(item.value).__name__))
+        return out
+    vsec = [lastext.item("VERS", "", case.get("vers") or ("1.2" if v12 else "2.0"), "v"), lastext.item("WRAP", "", "NO", "w"), it("XV")] + [it(m) for m in names if m.upper() in ("API", "UWI")]
     wsec = [lastext.item("STRT", "M", "1", ""), lastext.item("STOP", "M", "2", ""), lastext.item("STEP", "M", "1", ""),
             lastext.item("NULL", "", "-999.25", "")] + [it(m) for m in names]
     # section titles in either letter case: which values convert depends on the KIND of the section, not on its spelling
@@ -144,7 +166,7 @@ def oracle_file(case):
     if is_raised(las):
         out.fail("file-read-raises|" + las.bucket, "%s\n%s" % (las, spec_summary(spec)))
         return out
-    for key, convert_named in (("Version", True), ("Well", False), ("Parameter", True), ("Extra", False)):
+    for key, convert_named in (("Version", False), ("Well", False), ("Parameter", True), ("Extra", False)):
         sec = las.sections.get(key if key != "Extra" else T("~Extra")[1:])
         if sec is None or isinstance(sec, str):
             out.fail("file-section-missing", "section %s missing\n%s" % (key, spec_summary(spec)))
@@ -189,6 +211,11 @@ def named_files(tier):
                     # a file that declares VERS 3.0 but is laid out like a 2.0 file (lasio's partial 3.0 support): the
                     # kinds of its sections, and so which values convert, are the same
                     yield {"file": 1, "s": s, "mnemonic_case": mc, "v12": False, "vers": "3.0"}
+    for h in range(24):
+        for m in (0, 5, 30, 59):
+            yield {"file": 1, "s": "%02d:%02d" % (h, m), "param_only": True}
+            yield {"file": 1, "s": "%d:%02d:%02d" % (h, m, (h * 7) % 60), "param_only": True}
+            yield {"file": 1, "s": "%02d:%02d 12-JAN-2001" % (h, m), "param_only": True}
     # 1/50 sample of the short-string space
     for i, c in enumerate(strings("quick" if tier == "quick" else "quick")):
         if i % (50 if tier == "thorough" else 400) == 7 and ":" not in c["s"]:
